@@ -1,5 +1,6 @@
 import WnVerif.Drv.Graph
 import WnVerif.Drv.Morphy
+import WnVerif.Drv.Store
 open Lean WnVerif.Drv
 
 def dispatch (j : Json) : Json :=
@@ -7,6 +8,7 @@ def dispatch (j : Json) : Json :=
   | "graph" => opGraph j
   | "ic" => opIc j
   | "morphy" => opMorphy j
+  | "store" => opStore j
   | "ping" => jObj [("pong", jNat 1)]
   | op => jObj [("bad-op", jStr op)]
 
